@@ -108,7 +108,17 @@ def main():
         if own.get("first"):
             print("      " + own["first"])
         sys.stdout.flush()
-    with open(os.path.join(ROOT, "seeded", "RESULTS.json"), "w") as f:
+    # a partial run (names given) merges its rows into the file instead of replacing it
+    rp = os.path.join(ROOT, "seeded", "RESULTS.json")
+    if len(sys.argv) > 1 and any(not a.startswith("--") for a in sys.argv[1:]) and os.path.exists(rp):
+        try:
+            old = json.load(open(rp))
+        except ValueError:
+            old = []
+        fresh = {r["name"] for r in rows}
+        rows = sorted([r for r in old if r.get("name") not in fresh] + rows,
+                      key=lambda r: r.get("name", ""))
+    with open(rp, "w") as f:
         json.dump(rows, f, indent=1)
     missed = [r["name"] for r in rows if not r.get("superseded")
               and r.get("checks", {}).get(r["property"], {}).get("rc") != 1]
